@@ -552,6 +552,7 @@ func (q *BufferedChannelQueue[T]) freeNodePool() {
 		}
 
 		q.lock.Lock()
+		verifPoint("bq.freenode.locked", q)
 		if q.pool.nodeCount > q.nodeHookPoolSize {
 			q.pool.KeepNodePoolCount(q.nodeHookPoolSize)
 		}
@@ -561,12 +562,15 @@ func (q *BufferedChannelQueue[T]) freeNodePool() {
 
 func (q *BufferedChannelQueue[T]) loadFromPool() {
 	for range q.loadWorkerCh {
+		verifPoint("bq.loader.woken", q)
 
 		if q.isClosed.Get() {
 			break
 		}
+		verifPoint("bq.loader.checked", q)
 
 		q.lock.Lock()
+		verifPoint("bq.loader.locked", q)
 
 		var val T
 		var pollErr, offerErr error
@@ -577,6 +581,7 @@ func (q *BufferedChannelQueue[T]) loadFromPool() {
 			if pollErr != nil {
 				break
 			}
+			verifPoint("bq.loader.polled", q)
 
 			offerErr = q.blockingQueue.Offer(val)
 			// If failed, unshift it back
@@ -585,7 +590,9 @@ func (q *BufferedChannelQueue[T]) loadFromPool() {
 				break
 			}
 		}
+		verifPoint("bq.loader.unlocking", q)
 		q.lock.Unlock()
+		verifPoint("bq.loader.unlocked", q)
 
 		time.Sleep(q.loadFromPoolDuration)
 
@@ -643,7 +650,9 @@ func (q *BufferedChannelQueue[T]) GetFreeNodeHookPoolIntervalDuration() time.Dur
 
 // GetChannel Get Channel(for Selecting channels usages)
 func (q *BufferedChannelQueue[T]) GetChannel() chan T {
+	verifPoint("bq.getch.enter", q)
 	q.notifyWorkers()
+	verifPoint("bq.getch.notified", q)
 
 	return q.blockingQueue
 }
@@ -669,10 +678,14 @@ func (q *BufferedChannelQueue[T]) IsClosed() bool {
 func (q *BufferedChannelQueue[T]) Close() {
 	q.lock.Lock()
 	defer q.lock.Unlock()
+	verifPoint("bq.close.locked", q)
 
 	q.isClosed.Set(true)
+	verifPoint("bq.close.flagged", q)
 	close(q.loadWorkerCh)
+	verifPoint("bq.close.wakeclosed", q)
 	close(q.blockingQueue)
+	verifPoint("bq.close.done", q)
 }
 
 // Put Put the T val(non-blocking)
@@ -715,8 +728,10 @@ func (q *BufferedChannelQueue[T]) Take() (T, error) {
 	if q.isClosed.Get() {
 		return *new(T), ErrQueueIsClosed
 	}
+	verifPoint("bq.take.checked", q)
 
 	q.notifyWorkers()
+	verifPoint("bq.take.notified", q)
 
 	return q.blockingQueue.Take()
 }
@@ -726,8 +741,10 @@ func (q *BufferedChannelQueue[T]) TakeWithTimeout(timeout time.Duration) (T, err
 	if q.isClosed.Get() {
 		return *new(T), ErrQueueIsClosed
 	}
+	verifPoint("bq.take.checked", q)
 
 	q.notifyWorkers()
+	verifPoint("bq.take.notified", q)
 
 	return q.blockingQueue.TakeWithTimeout(timeout)
 }
@@ -736,10 +753,12 @@ func (q *BufferedChannelQueue[T]) TakeWithTimeout(timeout time.Duration) (T, err
 func (q *BufferedChannelQueue[T]) Offer(val T) error {
 	q.lock.Lock()
 	defer q.lock.Unlock()
+	defer verifPoint("bq.offer.done", q)
 
 	if q.isClosed.Get() {
 		return ErrQueueIsClosed
 	}
+	verifPoint("bq.offer.locked", q)
 
 	poolCount := q.pool.Count()
 
@@ -773,8 +792,10 @@ func (q *BufferedChannelQueue[T]) Poll() (T, error) {
 	if q.isClosed.Get() {
 		return *new(T), ErrQueueIsClosed
 	}
+	verifPoint("bq.take.checked", q)
 
 	q.notifyWorkers()
+	verifPoint("bq.take.notified", q)
 
 	return q.blockingQueue.Poll()
 }
